@@ -79,6 +79,12 @@ CLAIMED.update({
     design_ref="§4 C11", note=STRUCT_NOTE + " SauceString::append_to is taken to append exactly N bytes.",
     technique="static analysis: affine path-sum reconstruction over the writer's CFG + affine normal form of the reader's expression + who-writes rule on a local + interval analysis"),
 })
+CLAIMED.update({
+ "C12": dict(category="other",
+    text="Three structural necessary conditions decided on all paths: (R-OPT-ARM) in ColorOptimizer::optimize the rewritten cell's attribute starts as a copy of the cell's own attribute and is modified only by set_foreground inside the Whitespace arm of the glyph-shape switch and by set_background inside the Block arm (dominance by the switch targets), the character is replaced by a blank only inside the Whitespace arm, and the two setters write exactly one colour field (effect analysis); (R-SHAPE) get_shape returns Whitespace only under `ones == 0` and Block only under `ones == width * height` of its own BitFont parameter, and generate_shape_map passes the font whose glyph table it iterates; (R-FLATTEN) the flattening step composites rows 0..height and columns 0..width through Buffer::get_char at the same position. Pixel equality of the rendered pictures is value level and not decided.",
+    design_ref="§4 C12", note=STRUCT_NOTE,
+    technique="static analysis: dominance by enum-switch arms + parameter-relative effect analysis + expression normal forms on MIR"),
+})
 NOT_APPLICABLE = {p: PENDING for p in ["C%02d" % i for i in range(1, 21)]}
 NOT_APPLICABLE.update({
  "C05": "value-level: equality of pictures after save->load depends on run-time cell values along data-dependent paths of two separate programs (writer, reader); no structural clause is a genuine necessary condition that is not also a frozen-layout match (DESIGN §5)",
